@@ -209,6 +209,7 @@ add(Gram("a4", None, short_flags="abcs", names=("abcs", ["alpha", "beta", "gamma
 C01_GRAMMARS.append("g4")
 C01_GRAMMARS.append("c5")
 C01_GRAMMARS.append("c7")
+C01_GRAMMARS.append("c8")
 C06_GRAMMARS.append("o3")
 
 add(Gram("c5", Level([
@@ -225,6 +226,14 @@ add(Gram("c7", Level([
     Named("switch", "v", ["verbose"]),
     Cmds([Cmd(["mid"], _c7_mid)]),
 ]), short_flags="vmz", note="depth 2; the inner command is one branch of a choice whose other branch (`pure`) always succeeds"))
+
+_c8_seven = Level([Named("switch", "z", ["zed"])], make=mk("Alt8", 0))
+_c8_mid = Level([Named("switch", "m", ["mid"]),
+                 Cmds([Cmd(["7"], _c8_seven)], alt=Pos("many"), alt_tag=lambda v: Adt("Alt8", 1, (v,)))])
+add(Gram("c8", Level([
+    Named("switch", "v", ["verbose"]),
+    Cmds([Cmd(["mid"], _c8_mid)]),
+]), short_flags="vmz", note="depth 2; the inner command's name `7` is valid data for the sibling branch (repeated positional)"))
 
 add(Gram("k5", None, short_flags="rs", short_args="w", names=("rsw", ["rect", "sw", "width"], []), note="switch, then optional adjacent group (flag + argument), then optional positional"))
 
